@@ -80,6 +80,7 @@ func jobsFor(prop, tier string) []Job {
 		add("iter", "linkedhashset", 4, map[string]string{"c": "linkedhashset"}, map[string]int{"u": pick(4, 5)})
 		add("iter", "linkedhashmap", 4, map[string]string{"c": "linkedhashmap"}, map[string]int{"u": pick(4, 5)})
 		add("iter", "treeset", 4, map[string]string{"c": "treeset"}, map[string]int{"n": pick(8, 11), "rank": 1})
+		add("iter", "treeset.fixed", 4, map[string]string{"c": "treeset"}, map[string]int{"u": pick(4, 5)})
 		add("iter", "treebidimap", 4, map[string]string{"c": "treebidimap"}, map[string]int{"u": pick(4, 5)})
 		for _, c := range []string{"binaryheap", "priorityqueue"} {
 			add("iter", c, n, map[string]string{"c": c}, map[string]int{"n": pick(5, 7), "pmax": 2, "jsonlen": 0})
